@@ -22,6 +22,7 @@ ASSUMPTIONS = ["zstd encode_all / decode_all are inverse (library)", "Redis comm
 TRUSTED = ["zstd crate"]
 
 MUTANTS = [
+    {"name": "short-replies-not-decoded", "file": "src/proxy/reply.rs", "old": "        match self.decompressor.decompress(&cmd_ctx, &mut packet) {", "new": "        let short = match packet.to_resp_slice() {\n            Resp::Bulk(BulkStr::Str(s)) => s.len() <= 9,\n            _ => false,\n        };\n        if short {\n            return cmd_ctx.set_result(Ok(Box::new(packet)));\n        }\n        match self.decompressor.decompress(&cmd_ctx, &mut packet) {", "expect": "C20.D5:decode-unconditional"},
     {"name": "mset-value-index-off-by-one", "file": "src/proxy/executor.rs", "after": "async fn handle_mset(", "old": "            let value = match cmd_ctx.get_cmd().get_command_element(2 * i + 2) {", "new": "            let value = match cmd_ctx.get_cmd().get_command_element(2 * i + 3) {", "expect": "C20.D5:handle_mset"},
     {"name": "precompressed-values-skipped", "file": "src/proxy/compress.rs", "old": "        let compressed = match zstd::encode_all(value, 1) {", "new": "        if value.starts_with(&[0x28, 0xB5, 0x2F, 0xFD]) {\n            return Ok(());\n        }\n        let compressed = match zstd::encode_all(value, 1) {", "expect": "C20.D5:encode-unconditional"},
     {"name": "single-key-mget-not-split", "file": "src/proxy/executor.rs", "old": "            DataCmdType::Mget => {\n                CmdReplyFuture::Right", "new": "            DataCmdType::Mget if cmd_ctx.get_cmd().get_command_element(2).is_some() => {\n                CmdReplyFuture::Right", "expect": "C20.D5:dispatch:MGET"},
@@ -162,6 +163,7 @@ def run(ctx):
     _unconditional_transform(ctx)
     _dispatch_table(ctx)
     _mset_pairs(ctx)
+    _decode_unconditional(ctx)
 
 
 def _wiring(ctx):
@@ -320,3 +322,37 @@ def _mset_pairs(ctx):
                 if pos == [[(2, 1)], [(2, 2)]]:
                     ok = True
             ctx.check(ok, "C20.D5", "handle_mset:sub-command-order", site(b), ok="sub-command = [SET, element 2i+1, element 2i+2]", bad="the SET sub-command is not built as [SET, key_i, value_i]")
+
+
+def _decode_unconditional(ctx):
+    """read side mirror of encode-unconditional: whether a reply is decoded depends on the command and the strategy only,
+    never on what the reply looks like (its length or its first bytes).  Every stored value is a zstd frame - the empty
+    value is a 9 byte frame - so a `too short / does not look compressed` shortcut hands frames to the client"""
+    from ..lib import branch_conditions
+    F = ctx.F
+    n = 0
+    CONTENT = ("len", "is_empty", "starts_with", "ends_with", "first", "get", "contains", "get_size_hint")
+    for b in F.all_bodies(bins=False):
+        if b.is_mock() or b.kind == "Promoted" or "tests::" in b.path or not b.path.startswith(("<proxy::reply::", "proxy::reply::")):
+            continue
+        dc = [(bb, t) for bb, t in b.calls() if (callee_of(t) or "").endswith("CmdReplyDecompressor::decompress")]
+        if not dc:
+            continue
+        du = DefUse(b)
+        dom = cfg.dominators(b)
+        for bb, t in dc:
+            n += 1
+            ctx.analysed(b)
+            bad = []
+            pkt_locals = {l for l in range(len(b.locals)) if "RespPacket" in b.locals[l]["ty"] and "Result<" not in b.locals[l]["ty"]}
+            for d, discr, val in branch_conditions(b, bb, dom):
+                pl = discr.get("mv") or discr.get("cp")
+                if pl is not None and any(df[0] == "assign" and df[3]["rv"]["k"] == "discr" and "Result<" in b.locals[df[3]["rv"]["p"]["l"]]["ty"] for df in du.defs.get(pl["l"], [])):
+                    continue      # the Ok / Err match on the backend result
+                sl = du.slice_operand(discr)
+                looks = sorted({c.rsplit("::", 1)[-1] for c in list(sl.calls) + list(sl.decls) if c.rsplit("::", 1)[-1] in CONTENT})
+                if (looks and (sl.binops & {"Lt", "Le", "Gt", "Ge", "Eq", "Ne"} or "starts_with" in looks or "is_empty" in looks or "contains" in looks)) or (sl.locals & pkt_locals):
+                    bad.append((d, looks or sorted(c.rsplit("::", 1)[-1] for c in sl.calls)[:4]))
+            ctx.check(not bad, "C20.D5", "decode-unconditional:%s" % b.path.split("::{")[0].rsplit("::", 1)[-1], site(b, bad[0][0]) if bad else site(b, bb), ok="decompress is applied whatever the reply looks like",
+                      bad="decompress is skipped on a test of the reply's content (%s): a stored frame that fails the test (the 9 byte frame of the empty value) is handed to the client undecoded" % (bad[0][1] if bad else ""))
+    ctx.floor("C20.D5", "decompress call sites in the reply handlers", n, 1)
